@@ -1,6 +1,903 @@
-//! C07 — stub (not built yet).
+//! C07 — the zone-file reader is total and depends only on logical content.
+//!
+//! Sub-checks
+//! * `total`      byte-level cases: fixture zone files, grammar output of the
+//!                layout renderer and token soup, each after 0..6 byte-level
+//!                mutations; or raw bytes. Reader options and feed mode are
+//!                part of the case.
+//! * `total_raw`  first octet = options, rest = the file content verbatim
+//!                (entry point for the coverage-guided driver).
+//! * `layout`     metamorphic: one logical zone file rendered twice with
+//!                independent layout choices; both readings must equal the
+//!                logical entry list.
 use crate::engine::*;
+use crate::gen::name::{self as gn, Labels};
+use crate::gen::*;
+use crate::refimpl::rdata as rr;
+use crate::{vensure, vfail};
+use arbitrary::Unstructured;
+use bytes::{BufMut, Bytes};
+use domain::base::iana::Class;
+use domain::base::name::{FlattenInto, ToLabelIter};
+use domain::base::zonefile_fmt::{DisplayKind, ZonefileFmt};
+use domain::base::{Name, Record};
+use domain::rdata::ZoneRecordData;
+use domain::zonefile::inplace::{Entry, ScannedRecord, Zonefile};
+use std::collections::BTreeMap;
+
+pub mod logical;
+use logical::{LItem, Logical};
+
+//------------ Fixtures -------------------------------------------------------------
+
+macro_rules! fx {
+    ($n:literal) => {
+        include_bytes!(concat!("../../../../fixtures/c07/", $n)) as &[u8]
+    };
+}
+
+/// Zone files from /repo/test-data/zonefiles (the `zonefile:` block of the
+/// YAML cases, and the *.zone / *.txt files).
+pub const SEEDS: &[&[u8]] = &[
+    fx!("yaml-basic.zone"),
+    fx!("yaml-escape.zone"),
+    fx!("yaml-unknown.zone"),
+    fx!("yaml-unknown-zero-length.zone"),
+    fx!("yaml-defaultclass.zone"),
+    fx!("yaml-mixedclass.zone"),
+    fx!("yaml-strlen.zone"),
+    fx!("yaml-stroverflow.zone"),
+    fx!("yaml-multiple_dollar_ttls_multiple_missing_ttls.zone"),
+    fx!("yaml-multiple_dollar_ttls_no_missing_ttls.zone"),
+    fx!("yaml-no_dollar_ttl_no_missing_ttls.zone"),
+    fx!("yaml-no_dollar_ttl_one_missing_ttl.zone"),
+    fx!("yaml-top_dollar_ttl_and_missing_ttl.zone"),
+    fx!("yaml-top_dollar_ttl_no_missing_ttls.zone"),
+    fx!("yaml-rfc_1035_class_ttl_type_rdata.zone"),
+    fx!("yaml-rfc_1035_ttl_class_type_rdata.zone"),
+    fx!("nsd-example.txt"),
+    fx!("rfc1034-6-1-root.zone"),
+    fx!("rfc1034-6-1-edu.zone"),
+    fx!("rfc4035-appendix-A.zone"),
+    fx!("rfc5155-appendix-A.zone"),
+    fx!("example.com.head.txt"),
+];
+
+//------------ Reader options ---------------------------------------------------------
+
+#[derive(Clone, Copy, Debug, PartialEq, Eq, Hash)]
+pub enum Feed {
+    /// `Zonefile::from(&[u8])`
+    From,
+    /// `Zonefile::load(reader)`
+    Load,
+    /// `new()` / `with_capacity` + `extend_from_slice` in pieces, all before reading
+    Extend,
+    /// `BufMut::put_slice` / `reserve` in pieces, all before reading
+    BufMut,
+    /// pieces are appended whenever the reader reports the end of the data
+    Interleaved,
+}
+
+#[derive(Clone, Debug, PartialEq, Eq, Hash)]
+pub struct ReadOpts {
+    pub origin: Option<Labels>,
+    pub default_class: Option<u16>,
+    pub allow_invalid: bool,
+    pub feed: Feed,
+    /// piece size selector for the incremental feeds
+    pub piece: usize,
+}
+
+const PIECES: [usize; 8] = [1, 2, 3, 7, 16, 61, 256, 4099];
+
+fn opts_from_byte(b: u8) -> ReadOpts {
+    let origin = match b & 3 {
+        0 => None,
+        1 => Some(vec![b"example".to_vec(), b"com".to_vec()]),
+        2 => Some(vec![]),
+        _ => Some(vec![vec![b'x'; 63], vec![b'y'; 63], vec![b'z'; 63], vec![b'w'; 40]]),
+    };
+    let default_class = match (b >> 2) & 3 {
+        0 | 3 => None,
+        1 => Some(1),
+        _ => Some(3),
+    };
+    let feed = match b >> 5 {
+        0 | 5 | 6 => Feed::From,
+        1 => Feed::Load,
+        2 => Feed::Extend,
+        3 => Feed::BufMut,
+        _ => Feed::Interleaved,
+    };
+    ReadOpts { origin, default_class, allow_invalid: b & 0x10 != 0, feed, piece: PIECES[(b as usize * 7 + 3) % 8] }
+}
+
+fn make_reader(content: &[u8], o: &ReadOpts) -> (Zonefile, Vec<Vec<u8>>) {
+    let mut later: Vec<Vec<u8>> = vec![];
+    let mut zf = match o.feed {
+        Feed::From => Zonefile::from(content),
+        Feed::Load => {
+            let mut rd = content;
+            Zonefile::load(&mut rd).expect("reading from a slice cannot fail")
+        }
+        Feed::Extend => {
+            let mut z = if o.piece & 1 == 1 { Zonefile::new() } else { Zonefile::with_capacity(content.len() / 2) };
+            for c in content.chunks(o.piece) {
+                z.extend_from_slice(c);
+            }
+            z
+        }
+        Feed::BufMut => {
+            let mut z = Zonefile::default();
+            for c in content.chunks(o.piece) {
+                z.reserve(c.len());
+                z.put_slice(c);
+            }
+            z
+        }
+        Feed::Interleaved => {
+            let mut it = content.chunks(o.piece.max(16));
+            let mut z = Zonefile::new();
+            if let Some(c) = it.next() {
+                z.extend_from_slice(c);
+            }
+            later = it.map(|c| c.to_vec()).collect();
+            later.reverse();
+            z
+        }
+    };
+    if o.allow_invalid {
+        zf = zf.allow_invalid();
+    }
+    if let Some(l) = &o.origin {
+        zf.set_origin(gn::to_name_bytes(l));
+    }
+    if let Some(c) = o.default_class {
+        zf.set_default_class(Class::from_int(c));
+    }
+    (zf, later)
+}
+
+//------------ What the reader returned ------------------------------------------------
+
+#[derive(Clone, Debug, PartialEq, Eq)]
+pub enum Got {
+    Rec { owner: Labels, rtype: u16, class: u16, ttl: u32, rdata: Vec<u8> },
+    Include { path: Vec<u8>, origin: Option<Labels> },
+}
+
+#[derive(Debug)]
+pub struct ReadOut {
+    pub entries: Vec<Got>,
+    /// None = end of file reached; Some = error text
+    pub error: Option<String>,
+    /// a panic was tolerated as a known finding; the entry list is incomplete
+    pub tolerated_panic: bool,
+    pub offset: usize,
+    pub typed: BTreeMap<u16, u32>,
+}
+
+fn labels_checked<N: ToLabelIter>(what: &str, n: &N) -> Result<Labels, Violation> {
+    let mut out: Labels = vec![];
+    let mut len = 0usize;
+    let mut saw_root = false;
+    let mut steps = 0;
+    for l in n.iter_labels() {
+        steps += 1;
+        vensure!(steps <= 130, format!("{what}:name-iteration-unbounded"), "more than 130 labels");
+        vensure!(!saw_root, format!("{what}:name-invalid:label-after-root"), "labels after the root label: {out:?}");
+        let s = l.as_slice();
+        vensure!(s.len() <= 63, format!("{what}:name-invalid:label-too-long"), "label of {} octets in a returned name", s.len());
+        len += s.len() + 1;
+        if s.is_empty() {
+            saw_root = true;
+        } else {
+            out.push(s.to_vec());
+        }
+    }
+    vensure!(saw_root, format!("{what}:name-invalid:not-absolute"), "returned name does not end in the root label: {out:?}");
+    vensure!(len <= 255, format!("{what}:name-invalid:too-long"), "returned name has {len} octets");
+    Ok(out)
+}
+
+/// Uses a record the reader returned: owner valid, can be displayed,
+/// flattened and composed; returns its fields taken from the composed form.
+///
+/// `oversize`: the file is larger than 65535 octets, so a field (which is
+/// never longer than its text) may exceed what any record can hold. Whether
+/// such a value can be composed is a matter of the record data types, not of
+/// the reader, so only the names are checked then.
+fn use_record(rec: &ScannedRecord, oversize: bool) -> Result<Got, Violation> {
+    let owner = labels_checked("record-owner", rec.owner())?;
+    if oversize {
+        return Ok(Got::Rec { owner, rtype: rec.rtype().to_int(), class: rec.class().to_int(), ttl: rec.ttl().as_secs(), rdata: vec![] });
+    }
+    let mut wire: Vec<u8> = Vec::new();
+    if rec.compose(&mut wire).is_err() {
+        vfail!("record:compose-failed", "compose into Vec failed for {}", gn::show(&owner));
+    }
+    let ow = gn::to_wire(&owner);
+    vensure!(wire.len() >= ow.len() + 10 && wire[..ow.len()] == ow[..], "record:composed-owner-differs", "composed record does not start with the owner name");
+    let f = &wire[ow.len()..];
+    let rtype = u16::from_be_bytes([f[0], f[1]]);
+    let class = u16::from_be_bytes([f[2], f[3]]);
+    let ttl = u32::from_be_bytes([f[4], f[5], f[6], f[7]]);
+    let rdlen = u16::from_be_bytes([f[8], f[9]]) as usize;
+    vensure!(f.len() == 10 + rdlen, "record:composed-rdlen-inconsistent", "RDLENGTH {rdlen} but {} octets of data follow", f.len() - 10);
+    vensure!(rtype == rec.rtype().to_int() && class == rec.class().to_int() && ttl == rec.ttl().as_secs(), "record:composed-header-differs", "composed type/class/ttl differ from the accessors");
+    let rdata = f[10..].to_vec();
+    // names inside the data of typed records must be valid names
+    if !matches!(rec.data(), ZoneRecordData::Unknown(_)) {
+        if let Err(rr::WalkErr::BadName(why)) = rr::normal_rdata(rtype, &rdata, 0, rdata.len(), false) {
+            vfail!("record-data:name-invalid", "type {} data holds an invalid name ({why})", rr::mnemonic(rtype));
+        }
+    }
+    // the forms other parts of the library take the record in
+    let _ = format!("{rec}");
+    let _ = rec.display_zonefile(DisplayKind::Simple).to_string();
+    let flat: Record<Name<Bytes>, ZoneRecordData<Bytes, Name<Bytes>>> = rec.clone().flatten_into();
+    let mut wire2: Vec<u8> = Vec::new();
+    let _ = flat.compose(&mut wire2);
+    vensure!(wire2 == wire, "record:flattened-differs", "flatten_into changes the composed form of a returned record");
+    Ok(Got::Rec { owner, rtype, class, ttl, rdata })
+}
+
+fn use_entry(e: &Entry, oversize: bool) -> Result<Got, Violation> {
+    match e {
+        Entry::Record(r) => use_record(r, oversize),
+        Entry::Include { path, origin } => {
+            let p: &[u8] = path.as_slice();
+            vensure!(std::str::from_utf8(p).is_ok(), "include:path-not-utf8", "the Str returned as $INCLUDE path is not UTF-8: {p:?}");
+            let _ = format!("{path}");
+            let origin = match origin {
+                Some(o) => Some(labels_checked("include-origin", o)?),
+                None => None,
+            };
+            Ok(Got::Include { path: p.to_vec(), origin })
+        }
+    }
+}
+
+/// Drives the reader over `content` until the end, the first error or a
+/// (tolerated) panic.
+pub fn read_all(content: &[u8], o: &ReadOpts, ctx: &mut Ctx) -> Result<ReadOut, Violation> {
+    let (mut zf, mut later) = guarded("construct", || make_reader(content, o))?;
+    let mut out = ReadOut { entries: vec![], error: None, tolerated_panic: false, offset: 0, typed: BTreeMap::new() };
+    let newlines = content.iter().filter(|b| **b == b'\n').count();
+    loop {
+        let step = guarded("next_entry", || zf.next_entry());
+        let step = match step {
+            Ok(s) => s,
+            Err(v) => {
+                // the reader is in an unknown state after a panic
+                ctx.report(v)?;
+                out.tolerated_panic = true;
+                break;
+            }
+        };
+        match step {
+            Ok(Some(e)) => {
+                match guarded("use-entry", || use_entry(&e, content.len() > 65535)) {
+                    Ok(Ok(g)) => {
+                        if let Got::Rec { rtype, .. } = &g {
+                            *out.typed.entry(*rtype).or_default() += 1;
+                        }
+                        out.entries.push(g)
+                    }
+                    Ok(Err(v)) | Err(v) => {
+                        ctx.report(v)?;
+                        out.tolerated_panic = true;
+                        break;
+                    }
+                }
+                // progress: every entry consumes at least one octet
+                vensure!(out.entries.len() <= content.len(), "next_entry:more-entries-than-octets", "{} entries from {} octets", out.entries.len(), content.len());
+            }
+            Ok(None) => {
+                if let Some(more) = later.pop() {
+                    zf.extend_from_slice(&more);
+                    continue;
+                }
+                break;
+            }
+            Err(e) => {
+                // stop at the first error as the API demands
+                let text = e.to_string();
+                let dbg = format!("{e:?}");
+                vensure!(!dbg.is_empty(), "error:debug-empty", "empty Debug");
+                let line: Option<usize> = text.split(':').next().and_then(|s| s.parse().ok());
+                let col_ok = text.split(':').nth(1).map(|s| s.parse::<usize>().is_ok()).unwrap_or(false);
+                vensure!(line.is_some() && col_ok, "error:no-position", "error text {text:?} does not start with line:col");
+                let line = line.unwrap();
+                vensure!(line >= 1 && line <= newlines + 1, "error:line-out-of-range", "error {text:?} names line {line}; the input has {newlines} newlines");
+                out.error = Some(text);
+                break;
+            }
+        }
+    }
+    out.offset = zf.current_offset();
+    vensure!(out.offset <= content.len() + 1, "current_offset:beyond-input", "current_offset {} for {} octets", out.offset, content.len());
+    Ok(out)
+}
+
+/// Error text without position and context, digits removed: a class label.
+fn err_kind(text: &str) -> String {
+    let msg = text.splitn(3, ':').nth(2).unwrap_or(text).trim();
+    let msg = msg.split(':').next().unwrap_or(msg);
+    msg.chars().filter(|c| !c.is_ascii_digit()).take(40).collect()
+}
+
+//------------ Totality --------------------------------------------------------------
+
+const DICT: &[&[u8]] = &[
+    b"$ORIGIN", b"$TTL", b"$INCLUDE", b"$origin", b"$GENERATE", b"$", b"IN", b"CH", b"HS", b"CLASS1", b"CLASS65535", b"TYPE1", b"TYPE65535",
+    b"TYPE65536", b"(", b")", b";", b"\"", b"\\", b"\\#", b"@", b"\\000", b"\\25", b"\\256", b"\\999", b"\\\n", b"\\\"", b"\\.", b".", b"..", b"-",
+    b"=", b"key1=", b"alpn=", b"alpn=\"h2\"", b"mandatory=alpn", b"port=", b"no-default-alpn", b"ipv4hint=1.2.3.4", b"key65535=\"a b\"", b"\0",
+    b"\r", b"\n", b"\t", b" ", b"\xff", b"\xc3\x28", b"\xc3\xa9", b"\xf0\x9f\x92\xa9", b"\xed\xa0\x80", b"\xf4\x90\x80\x80", b"4294967296", b"4294967295", b"256", b"255", b"259", b"65535", b"65536", b"65539",
+    b"99999999999999999999", b"20240101000000", b"20241301000000", b"00000000000000", b"1.2.3.4", b"::1", b"1.2.3.256", b"example.com.", b"a.b",
+    b"A", b"AAAA", b"NS", b"CNAME", b"SOA", b"MX", b"TXT", b"SRV", b"NAPTR", b"DS", b"DNSKEY", b"RRSIG", b"NSEC", b"NSEC3", b"NSEC3PARAM", b"TLSA",
+    b"SSHFP", b"CAA", b"SVCB", b"HTTPS", b"IPSECKEY", b"OPENPGPKEY", b"ZONEMD", b"HINFO", b"MINFO", b"RP", b"PTR", b"DNAME", b"CDS", b"CDNSKEY", b"OPT",
+    b"NULL", b"TSIG", b"ANY", b"AXFR", b"\"\"", b"\" \"", b"a\"b\"c", b"\\# 0", b"\\# 1 00", b"\\# 2 00", b"\\# 65535", b"00", b"0", b"AQID", b"AQ==", b"====",
+    b"-", b"0123456789ABCDEFGHIJKLMNOPQRSTUV", b"issue", b"0 issue \"ca.example\"", b"1 0 0 -", b"1 1 1 aabb", b"( ; c\n )", b"\r\n", b"3600", b"0",
+];
+
+const SPECIAL_BYTES: &[u8] = b"\n\r\t \"();\\$@.#\0\x7f\x80\xff=-*09azAZ";
+
+fn soup(u: &mut Unstructured) -> Vec<u8> {
+    let mut out = vec![];
+    let lines = 1 + pick(u, 8);
+    for _ in 0..lines {
+        if chance(u, 60) {
+            out.push(b' ');
+        }
+        let toks = pick(u, 9);
+        for _ in 0..toks {
+            match pick(u, 8) {
+                0..=3 => out.extend_from_slice(DICT[pick(u, DICT.len())]),
+                4 => {
+                    let l = gn::name(u, false);
+                    out.extend_from_slice(gn::show(&l).as_bytes());
+                }
+                5 => {
+                    out.push(b'"');
+                    for _ in 0..pick(u, 10) {
+                        out.push(pickb(u, SPECIAL_BYTES));
+                    }
+                    out.push(b'"');
+                }
+                6 => out.extend_from_slice(u32_(u).to_string().as_bytes()),
+                _ => {
+                    for _ in 0..1 + pick(u, 8) {
+                        out.push(byte(u));
+                    }
+                }
+            }
+            match pick(u, 8) {
+                0 => {}
+                1 => out.push(b'\t'),
+                2 => out.extend_from_slice(b" ( "),
+                3 => out.extend_from_slice(b" ) "),
+                _ => out.push(b' '),
+            }
+        }
+        match pick(u, 8) {
+            0 => out.extend_from_slice(b"\r\n"),
+            1 => out.push(b'\r'),
+            2 => out.extend_from_slice(b" ; c\n"),
+            _ => out.push(b'\n'),
+        }
+    }
+    if chance(u, 40) {
+        out.pop();
+    }
+    out
+}
+
+const RUNS: [usize; 16] = [1, 2, 3, 62, 63, 64, 65, 127, 253, 254, 255, 256, 257, 300, 1000, 70_000];
+
+fn mutate(u: &mut Unstructured, v: &mut Vec<u8>, ctx: &mut Ctx) {
+    let pos = |u: &mut Unstructured, len: usize| -> usize {
+        if len == 0 {
+            0
+        } else {
+            (u16_(u) as usize * (len + 1)) >> 16
+        }
+    };
+    let op = pick(u, 14);
+    let label = match op {
+        0 | 1 => {
+            let at = pos(u, v.len());
+            let t = DICT[pick(u, DICT.len())];
+            let glue = pick(u, 3);
+            let mut ins = vec![];
+            if glue == 1 {
+                ins.push(b' ');
+            }
+            ins.extend_from_slice(t);
+            if glue >= 1 {
+                ins.push(b' ');
+            }
+            v.splice(at..at, ins);
+            "insert-token"
+        }
+        2 => {
+            let a = pos(u, v.len());
+            let n = 1 + pick(u, 40);
+            let b = (a + n).min(v.len());
+            v.drain(a..b);
+            "delete"
+        }
+        3 => {
+            let a = pos(u, v.len());
+            v.truncate(a);
+            "truncate"
+        }
+        4 | 5 => {
+            if !v.is_empty() {
+                let a = pos(u, v.len() - 1);
+                v[a] = if flag(u) { pickb(u, SPECIAL_BYTES) } else { byte(u) };
+            }
+            "replace-byte"
+        }
+        6 => {
+            let a = pos(u, v.len());
+            let n = 1 + pick(u, 60);
+            let b = (a + n).min(v.len());
+            let chunk = v[a..b].to_vec();
+            let at = pos(u, v.len());
+            v.splice(at..at, chunk);
+            "duplicate"
+        }
+        7 | 8 => {
+            let at = pos(u, v.len());
+            let b = match pick(u, 4) {
+                0 => b'a',
+                1 => pickb(u, b"0\\\"(. ;\n9"),
+                2 => pickb(u, SPECIAL_BYTES),
+                _ => byte(u),
+            };
+            let huge = chance(u, 8);
+            let n = RUNS[pick(u, if huge { 16 } else { 15 })];
+            v.splice(at..at, std::iter::repeat(b).take(n));
+            "insert-run"
+        }
+        9 => {
+            let with: &[u8] = if flag(u) { b"\r" } else { b"\r\n" };
+            let mut o = Vec::with_capacity(v.len() + 16);
+            for &b in v.iter() {
+                if b == b'\n' {
+                    o.extend_from_slice(with);
+                } else {
+                    o.push(b);
+                }
+            }
+            *v = o;
+            "line-ends"
+        }
+        10 => {
+            while v.last() == Some(&b'\n') || v.last() == Some(&b'\r') {
+                v.pop();
+            }
+            "no-final-newline"
+        }
+        11 => {
+            let a = pos(u, v.len());
+            let n = pick(u, 30);
+            let b = (a + n).min(v.len());
+            let (open, close): (&[u8], &[u8]) = match pick(u, 4) {
+                0 => (b"\"", b"\""),
+                1 => (b"(", b")"),
+                2 => (b"( ", b"\n)"),
+                _ => (b";", b"\n"),
+            };
+            v.splice(b..b, close.iter().copied());
+            v.splice(a..a, open.iter().copied());
+            "wrap"
+        }
+        12 => {
+            // an escape sequence somewhere
+            let at = pos(u, v.len());
+            let e: Vec<u8> = match pick(u, 4) {
+                0 => format!("\\{:03}", byte(u)).into_bytes(),
+                1 => vec![b'\\', byte(u)],
+                2 => format!("\\{}", u16_(u) % 1000).into_bytes(),
+                _ => vec![b'\\'],
+            };
+            v.splice(at..at, e);
+            "insert-escape"
+        }
+        _ => {
+            // a whole line from the dictionary
+            let mut line = vec![];
+            for _ in 0..1 + pick(u, 4) {
+                line.extend_from_slice(DICT[pick(u, DICT.len())]);
+                line.push(b' ');
+            }
+            line.push(b'\n');
+            // at a line start
+            let mut at = pos(u, v.len());
+            while at > 0 && v[at - 1] != b'\n' {
+                at -= 1;
+            }
+            v.splice(at..at, line);
+            "insert-line"
+        }
+    };
+    ctx.class(format!("mut:{label}"));
+}
+
+/// The totality oracle on one file content.
+fn total_core(content: &[u8], o: &ReadOpts, ctx: &mut Ctx) -> CaseResult {
+    ctx.class(format!("feed:{:?}", o.feed));
+    ctx.sample(|| {
+        format!(
+            "{} octets, {:?}, origin {:?}, default class {:?}, allow_invalid {}; file: {:?}",
+            content.len(),
+            o.feed,
+            o.origin.as_ref().map(gn::show),
+            o.default_class,
+            o.allow_invalid,
+            String::from_utf8_lossy(&content[..content.len().min(400)])
+        )
+    });
+    let out = read_all(content, o, ctx)?;
+    match &out.error {
+        None if out.tolerated_panic => ctx.class("end:tolerated-known-finding"),
+        None => ctx.class("end:eof"),
+        Some(e) => {
+            ctx.class("end:error");
+            ctx.class(format!("err:{}", err_kind(e)));
+        }
+    }
+    let recs = out.entries.iter().filter(|g| matches!(g, Got::Rec { .. })).count();
+    if recs > 0 {
+        ctx.class("returned:record");
+    }
+    if recs >= 5 {
+        ctx.class("returned:5+records");
+    }
+    if out.entries.iter().any(|g| matches!(g, Got::Include { .. })) {
+        ctx.class("returned:include");
+    }
+    for t in out.typed.keys() {
+        ctx.class(format!("type:{}", rr::mnemonic(*t)));
+    }
+    if !out.entries.is_empty() || (out.error.is_some() && out.offset >= 2) {
+        ctx.nontrivial(&(content, o));
+    }
+    // the anchored-file conversion on what was read (fresh reader: the
+    // conversion consumes it)
+    if o.feed != Feed::Interleaved {
+        let conv = guarded("parsed::Zonefile::try_from", || {
+            let (zf, _) = make_reader(content, o);
+            domain::zonetree::parsed::Zonefile::try_from(zf).map(|z| (z.origin().is_some(), z.class().is_some()))
+        });
+        match conv {
+            Ok(Ok(_)) => {
+                ctx.class("parsed:ok");
+                vensure!(out.error.is_none() || out.tolerated_panic, "parsed:accepts-what-next_entry-rejects", "parsed::Zonefile::try_from is Ok but next_entry reported {:?}", out.error);
+            }
+            Ok(Err(_)) => ctx.class("parsed:err"),
+            Err(v) => ctx.report(v)?,
+        }
+    }
+    Ok(())
+}
+
+/// Record / directive templates with holes; the holes get boundary values,
+/// dictionary tokens and long runs (grammar-aware mutation).
+const TEMPLATES: &[&str] = &[
+    "a NSEC3 1 0 0 - {} A\n", "a NSEC3 1 0 0 {} 00 A\n", "a NSEC3 {} {} {} - 00\n", "a NSEC3PARAM 1 0 {} {}\n", "a DS {} {} {} {}\n", "a DS 1 1 1 {}\n",
+    "a TXT {}\n", "a TXT {} {}\n", "a {} IN A 1.2.3.4\n", "a IN {} A 1.2.3.4\n", "a {} {} {}\n", "a CAA {} {} {}\n", "a CAA 0 issue {}\n",
+    "a SVCB {} . {}\n", "a HTTPS 1 {} {} {}\n", "{} A 1.2.3.4\n", "{} {}\n", "a NSEC {} A\n", "a NSEC a. {}\n", "a NSEC a. {} {} {}\n",
+    "a RRSIG A 8 2 3600 {} {} 1 a. AQID\n", "a RRSIG {} {} {} {} 1 1 {} {} {}\n", "a OPENPGPKEY {}\n", "a DNSKEY 256 3 {} {}\n", "a A {}\n",
+    "a AAAA {}\n", "a NAPTR 1 1 {} {} {} .\n", "a HINFO {} {}\n", "$INCLUDE {}\n", "$INCLUDE {} {}\n", "$ORIGIN {}\n", "$TTL {}\n", "a \\# {} {}\n",
+    "a TYPE{} \\# 0\n", "a CLASS{} A 1.2.3.4\n", "a SOA {} {} 1 2 3 4 {}\n", "a MX {} {}\n", "a SRV 1 2 {} {}\n", "a IPSECKEY 1 {} {} {} {}\n",
+    "a TLSA {} {} {} {}\n", "a SSHFP {} {} {}\n", "a ZONEMD {} {} {} {}\n", "a NS {}\n", "  {} {} {}\n", "a ( {} ) A ( {} )\n", "{}\n",
+    "a TXT ( {} ; c\n {} )\n", "a. 1 IN A 1.2.3.4\n{}\n",
+];
+
+fn hole(u: &mut Unstructured) -> Vec<u8> {
+    let mut out = vec![];
+    let quote = pick(u, 6) == 5;
+    if quote {
+        out.push(b'"');
+    }
+    match pick(u, 8) {
+        0 | 1 => out.extend_from_slice(DICT[pick(u, DICT.len())]),
+        2 => {
+            let b = pickb(u, b"0aAV=/+.\\\"9-");
+            let n = RUNS[pick(u, 15)].min(2000) + pick(u, 3);
+            out.extend(std::iter::repeat(b).take(n));
+        }
+        3 => {
+            // Base-N text around the 255-octet and 64 KiB boundaries is made
+            // of runs; lengths chosen so that the decoded size straddles 255
+            let n = [406, 408, 409, 410, 416, 508, 510, 512, 340, 344][pick(u, 10)];
+            let b = pickb(u, b"0AVa");
+            out.extend(std::iter::repeat(b).take(n));
+        }
+        4 => out.extend_from_slice([&b"0"[..], b"1", b"255", b"256", b"65535", b"65536", b"4294967295", b"4294967296", b"2147483648", b"00000000001"][pick(u, 10)]),
+        5 => out.extend_from_slice(gn::show(&gn::name(u, false)).as_bytes()),
+        6 => {
+            for _ in 0..1 + pick(u, 6) {
+                out.push(pickb(u, SPECIAL_BYTES));
+            }
+        }
+        _ => out.extend_from_slice(&logical::base64(&[byte(u), byte(u), byte(u), byte(u)]).as_bytes()[..4 + pick(u, 5)]),
+    }
+    if quote && pick(u, 8) != 0 {
+        out.push(b'"');
+    }
+    out
+}
+
+fn template(u: &mut Unstructured) -> Vec<u8> {
+    let mut out = vec![];
+    for _ in 0..1 + pick(u, 3) {
+        let t = TEMPLATES[pick(u, TEMPLATES.len())];
+        let mut parts = t.split("{}");
+        out.extend_from_slice(parts.next().unwrap().as_bytes());
+        for p in parts {
+            out.extend(hole(u));
+            out.extend_from_slice(p.as_bytes());
+        }
+    }
+    out
+}
+
+fn run_total(data: &[u8], ctx: &mut Ctx) -> CaseResult {
+    let mut u = Unstructured::new(data);
+    let mut o = opts_from_byte(byte(&mut u));
+    let src = pick(&mut u, 16);
+    let nmut = match pick(&mut u, 8) {
+        0 | 1 => 0,
+        2..=4 => 1,
+        5 | 6 => 2,
+        _ => 3 + pick(&mut u, 4),
+    };
+    // the parameters of the mutations come first so that a long base file
+    // does not starve them
+    let mparams: Vec<Vec<u8>> = (0..nmut).map(|_| u.bytes(8.min(u.len())).map(|b| b.to_vec()).unwrap_or_default()).collect();
+    let mut content: Vec<u8> = match src {
+        0..=3 => {
+            ctx.class("src:fixture");
+            SEEDS[pick(&mut u, SEEDS.len())].to_vec()
+        }
+        4..=8 => {
+            ctx.class("src:grammar");
+            let lz = logical::gen_logical(&mut u, 6);
+            if !chance(&mut u, 40) {
+                // the context the file was written for
+                o.origin = lz.origin.clone();
+                o.default_class = lz.default_class;
+            }
+            logical::render(&lz, &mut u, true).text
+        }
+        9..=11 => {
+            ctx.class("src:template");
+            template(&mut u)
+        }
+        12..=14 => {
+            ctx.class("src:soup");
+            soup(&mut u)
+        }
+        _ => {
+            ctx.class("src:raw");
+            u.take_rest().to_vec()
+        }
+    };
+    if src < 15 {
+        for m in &mparams {
+            mutate(&mut Unstructured::new(m), &mut content, ctx);
+        }
+        ctx.class(if nmut == 0 { "mutations:0" } else { "mutations:1+" });
+    }
+    total_core(&content, &o, ctx)
+}
+
+fn run_total_raw(data: &[u8], ctx: &mut Ctx) -> CaseResult {
+    let (o, content) = match data.split_first() {
+        Some((b, rest)) => (opts_from_byte(*b), rest),
+        None => (opts_from_byte(0), data),
+    };
+    total_core(content, &o, ctx)
+}
+
+//------------ Layout ----------------------------------------------------------------
+
+fn show_got(g: &Got) -> String {
+    match g {
+        Got::Rec { owner, rtype, class, ttl, rdata } => {
+            format!("{} {ttl} CLASS{class} {} \\# {} {}", gn::show(owner), rr::mnemonic(*rtype), rdata.len(), logical::hex(rdata, false))
+        }
+        Got::Include { path, origin } => format!("$INCLUDE {:?} {:?}", String::from_utf8_lossy(path), origin.as_ref().map(gn::show)),
+    }
+}
+
+fn expected(lz: &Logical) -> Vec<Got> {
+    lz.items
+        .iter()
+        .map(|it| match it {
+            LItem::Rec(r) => Got::Rec { owner: r.owner.clone(), rtype: r.rtype, class: lz.class, ttl: r.ttl, rdata: r.rdata.clone() },
+            LItem::Include { path, origin } => Got::Include { path: path.clone(), origin: origin.clone() },
+        })
+        .collect()
+}
+
+fn compare(which: &str, want: &[Got], out: &ReadOut, text: &[u8], lz: &Logical) -> CaseResult {
+    let shown = || format!("rendering {which}:\n{}\n-- as bytes: {:?}", String::from_utf8_lossy(text), String::from_utf8_lossy(text));
+    if let Some(e) = &out.error {
+        vfail!(format!("layout:valid-file-rejected:{}", err_kind(e)), "the reader rejects a well-formed file with {e:?} after {} of {} entries\n{}", out.entries.len(), want.len(), shown());
+    }
+    if out.tolerated_panic {
+        return Ok(());
+    }
+    for (i, (w, g)) in want.iter().zip(out.entries.iter()).enumerate() {
+        if w == g {
+            continue;
+        }
+        let field = match (w, g) {
+            (Got::Rec { owner: o1, rtype: t1, class: c1, ttl: l1, rdata: d1 }, Got::Rec { owner: o2, rtype: t2, class: c2, ttl: l2, rdata: d2 }) => {
+                if t1 != t2 {
+                    "type".to_string()
+                } else if o1 != o2 {
+                    "owner".into()
+                } else if c1 != c2 {
+                    "class".into()
+                } else if l1 != l2 {
+                    "ttl".into()
+                } else {
+                    let _ = (d1, d2);
+                    format!("rdata:{}", rr::mnemonic(*t1))
+                }
+            }
+            (Got::Include { path: p1, .. }, Got::Include { path: p2, .. }) => {
+                if p1 != p2 {
+                    "include-path".into()
+                } else {
+                    "include-origin".into()
+                }
+            }
+            _ => "entry-kind".into(),
+        };
+        let _ = lz;
+        vfail!(format!("layout:entry-differs:{field}"), "entry {i} of rendering {which}: logical {} but read {}\n{}", show_got(w), show_got(g), shown());
+    }
+    vensure!(want.len() == out.entries.len(), "layout:entry-count-differs", "{} logical entries, {} read\n{}", want.len(), out.entries.len(), shown());
+    Ok(())
+}
+
+fn run_layout(data: &[u8], ctx: &mut Ctx) -> CaseResult {
+    // 2/5 of the input decodes the logical file, the rest is split between
+    // the two renderings (so that neither starves the other).
+    let (dl, rest) = data.split_at(data.len() * 2 / 5);
+    let mut u = Unstructured::new(dl);
+    let feed_a = [Feed::From, Feed::Load, Feed::Extend, Feed::BufMut][pick(&mut u, 4)];
+    let feed_b = [Feed::From, Feed::Load, Feed::Extend, Feed::BufMut][pick(&mut u, 4)];
+    let piece = PIECES[pick(&mut u, 8)];
+    // (not tied to the tier: a replay file must decode the same everywhere)
+    let max_items = 8;
+    let lz = logical::gen_logical(&mut u, max_items);
+    let (ba, bb) = rest.split_at(rest.len() / 2);
+    let a = logical::render(&lz, &mut Unstructured::new(ba), true);
+    let b = logical::render(&lz, &mut Unstructured::new(bb), true);
+    let plain = logical::render(&lz, &mut Unstructured::new(&[]), false);
+    let want = expected(&lz);
+    let nrec = lz.items.iter().filter(|i| matches!(i, LItem::Rec(_))).count();
+
+    let differing: Vec<&str> = logical::DIMS.iter().enumerate().filter(|(i, _)| a.dims[*i] != b.dims[*i]).map(|(_, d)| *d).collect();
+    for (i, d) in logical::DIMS.iter().enumerate() {
+        if a.dims[i] > 0 || b.dims[i] > 0 {
+            ctx.class(format!("dim:{d}"));
+        }
+    }
+    for it in &lz.items {
+        match it {
+            LItem::Rec(r) => {
+                ctx.class(format!("type:{}", rr::mnemonic(r.rtype)));
+                if matches!(r.toks.first(), Some(logical::Tok::W(w)) if w == "\\#") {
+                    ctx.class("generic-rdata");
+                }
+                if r.owner.iter().any(|l| l.len() == 63) {
+                    ctx.class("label-63");
+                }
+            }
+            LItem::Include { .. } => ctx.class("include"),
+        }
+    }
+    ctx.class(match &lz.origin {
+        None => "origin:none",
+        Some(o) if o.is_empty() => "origin:root",
+        _ => "origin:name",
+    });
+    if lz.default_class.is_some() {
+        ctx.class("default-class");
+    }
+    if differing.len() >= 3 && nrec >= 2 && a.text != b.text {
+        ctx.class("nontrivial");
+        ctx.nontrivial(&(&lz, &a.text, &b.text));
+    }
+    ctx.sample(|| format!("differ in {differing:?}\n--- A\n{}\n--- B\n{}", String::from_utf8_lossy(&a.text), String::from_utf8_lossy(&b.text)));
+
+    let mut anchored: Vec<Option<(bool, Option<Labels>, Option<u16>)>> = vec![];
+    for (which, r, feed) in [("plain", &plain, Feed::From), ("A", &a, feed_a), ("B", &b, feed_b)] {
+        let o = ReadOpts { origin: lz.origin.clone(), default_class: lz.default_class, allow_invalid: false, feed, piece };
+        let out = read_all(&r.text, &o, ctx)?;
+        compare(which, &want, &out, &r.text, &lz)?;
+        // the anchored-file conversion of what was read: acceptance, apex
+        // and class depend on the record sequence only
+        let conv = guarded("parsed::Zonefile::try_from", || {
+            let (zf, _) = make_reader(&r.text, &o);
+            match domain::zonetree::parsed::Zonefile::try_from(zf) {
+                Ok(z) => (true, z.origin().map(gn::from_name), z.class().map(|c| c.to_int())),
+                Err(_) => (false, None, None),
+            }
+        });
+        match conv {
+            Ok(x) => anchored.push(Some(x)),
+            Err(v) => {
+                ctx.report(v)?;
+                anchored.push(None);
+            }
+        }
+    }
+    if let [Some(p), Some(x), Some(y)] = &anchored[..] {
+        vensure!(p == x && p == y, "layout:parsed-zonefile-differs", "parsed::Zonefile::try_from gives {p:?} for the plain layout, {x:?} for A and {y:?} for B\n--- A\n{}\n--- B\n{}", String::from_utf8_lossy(&a.text), String::from_utf8_lossy(&b.text));
+        ctx.class(if p.0 { "layout-parsed:ok" } else { "layout-parsed:err" });
+    }
+    Ok(())
+}
+
+//------------ Registration ------------------------------------------------------------
+
+fn health(classes: &BTreeMap<String, u64>, _thorough: bool) -> Result<(), String> {
+    let need = [
+        "end:eof", "end:error", "returned:record", "returned:5+records", "returned:include", "src:fixture", "src:grammar", "src:template", "src:soup", "src:raw",
+        "feed:From", "feed:Load", "feed:Extend", "feed:BufMut", "feed:Interleaved", "parsed:ok", "parsed:err", "mutations:0", "mutations:1+",
+        "nontrivial", "layout-parsed:ok", "layout-parsed:err", "include", "generic-rdata", "label-63", "origin:none", "origin:root", "origin:name", "default-class",
+    ];
+    let mut missing: Vec<String> = vec![];
+    for n in need {
+        if classes.get(n).copied().unwrap_or(0) == 0 {
+            missing.push(n.to_string());
+        }
+    }
+    if classes.keys().any(|k| k.starts_with("dim:")) {
+        for d in logical::DIMS {
+            if classes.get(&format!("dim:{d}")).copied().unwrap_or(0) < 20 {
+                missing.push(format!("dim:{d}"));
+            }
+        }
+        for t in logical::LAYOUT_TYPES {
+            if classes.get(&format!("type:{}", rr::mnemonic(*t))).copied().unwrap_or(0) < 5 {
+                missing.push(format!("type:{}", rr::mnemonic(*t)));
+            }
+        }
+    }
+    if missing.is_empty() {
+        Ok(())
+    } else {
+        Err(format!("starved classes: {missing:?}"))
+    }
+}
 
 pub fn prop() -> Option<Prop> {
-    None
+    Some(Prop {
+        id: "C07",
+        rule: "total/total_raw: case = file octets + reader options (origin, default class, allow_invalid, feed mode); non-trivial = the reader returned at least one entry or failed after consuming input beyond the first token position; distinct by (octets, options). layout: case = logical zone file + two renderings; non-trivial = at least 2 records and the renderings differ in at least 3 layout dimensions; distinct by (logical file, both texts)",
+        assumptions: &[
+            "the harness's own presentation writer (logical.rs) is the reference for what a layout rewrite is",
+            "iteration stops at the first Err, as the API documents; nothing is demanded of a reader after an error",
+            "a hang is decided by the engine's isolated watchdog, not by this module",
+        ],
+        subchecks: vec![
+            SubCheck::new("total", run_total, 500_000, 10_000_000, 1500),
+            SubCheck::new("total_raw", run_total_raw, 20_000, 400_000, 600),
+            SubCheck::new("layout", run_layout, 120_000, 2_400_000, 3000),
+        ],
+        health: Some(health),
+        extra: None,
+    })
 }
